@@ -61,6 +61,14 @@ REG = {
         ],
         "trusted_base": ["modelled, not verified: os.OpenFile(O_APPEND), io.CopyN, os.Rename"],
     },
+    "C12": {
+        "assumptions": [
+            "queue-level audiences are proved on the model; delivery adds sendTransaction's lookup by user ID: chat membership is NOT purged when a member disconnects, so 'nobody else' additionally needs that the departed member's ID is not handed to a new connection while the stale membership exists (known finding: stale-member-after-id-reuse, needs 65,536 further connections)",
+            "fmt's %13.13s is modelled on Go's rune segmentation (invalid bytes are one rune wide); validated against fmt on every run with names containing multi-byte and invalid sequences",
+            "in-order delivery (sequential outbox in the harness, real sendTransaction)",
+        ],
+        "trusted_base": ["std++ gmap", "modelled, not verified: fmt.Sprintf, utf8 decoding, crypto/rand chat IDs (inputs of the model)"],
+    },
     "C13": {
         "assumptions": [
             "notifications are applied by the client in the order the server queued them (the statement quantifies histories, not schedules); the harness delivers the outbox sequentially through the real sendTransaction and uses a keep-alive round trip as barrier",
